@@ -298,6 +298,8 @@ def jobs(tier):
                     plans = [('1/2', 1, 2)]
             else:
                 plans = [(al, 1, 3) for al in ['0', '1/10', '1/2', '1']] + [('1/2', 2, 2), ('1/10', 2, 1)]
+                if heavy:
+                    plans.remove(('1/2', 2, 2))      # (double Q-learning: two tables and a coin per step - more than 60000 paths per case)
             for alpha, ep, L in plans:
                 yield ('fold', dict(shape=i, learner=ln, alpha=alpha, temp=0, episodes=ep, L=L), dict(o, cost=10 if heavy else 3))
             yield ('fold', dict(shape=i, learner=ln, alpha='1/10', temp=0, episodes=1, L=1 if quick else 2, qkind='table'), o)
